@@ -443,6 +443,8 @@ var ExprThemes = map[string][]string{
 		"with_dtf(\"02/01/2006\"; .t | format_datetime(\"15:04\"))", "with_dtf(\"Jan 2, 2006\"; .t += \"3h\")", "with_dtf(\"2006\"; .t | tz(\"UTC\"))",
 		"with_dtf(\"2006-01-02T15:04:05Z\"; .t += \"3h\")", ".t | format_datetime(\"2006\")", ".t | format_datetime(\"Jan 2\")",
 	},
+	// eval whose argument is itself an eval, many levels deep, the levels being data of the document
+	"evalchain": {"eval(.e1)", ".r = eval(.e1)", "eval(.e1) | . + 1", "[eval(.e1), eval(.e3)]", "eval(.e2) as $x | $x", "with(.a; . = eval(\"1 + 1\")) | eval(.e1)"},
 	// plain expressions: what varies in this theme is the encoder / decoder object and its preferences
 	// evaluations without input (yq -n): every one starts from its own null document
 	"nullinput": {".name = \"first\"", ".count = 2", "length", ".a.b = 1", "{\"a\": 1}", ". // \"d\"", ".[0] = 1", "keys", ".", ".x |= 3", "[., .]", ". == null", "to_json", ".l += [1]"},
@@ -456,7 +458,7 @@ var ExprThemes = map[string][]string{
 	},
 }
 
-var ExprThemeNames = []string{"assignops", "regex", "sort", "encode", "variables", "literals", "snippet", "datetime", "pathtypes", "goccy", "loadshared", "encoderprefs", "nullinput"}
+var ExprThemeNames = []string{"assignops", "regex", "sort", "encode", "variables", "literals", "snippet", "datetime", "pathtypes", "goccy", "loadshared", "encoderprefs", "nullinput", "evalchain"}
 
 var commentOpRe = regexp.MustCompile(`(head|line|foot)_comment\s*(\|=|=)?`)
 
